@@ -831,3 +831,213 @@ Proof.
   - apply Permutation_refl.
   - intros P. apply Permutation_length_1_inv in P. discriminate.
 Qed.
+
+(* ------------------------------------------------------------------ *)
+(* ---------- what the binding check does NOT bind: the option fields ---------- *)
+Lemma set_field_eq : forall x off w v,
+  set_field x off w v = x + (v mod 2 ^ w - get_field x off w) * 2 ^ off.
+Proof. reflexivity. Qed.
+
+Lemma set_set_same : forall x off w a b, 0 <= off -> 0 <= w ->
+  set_field (set_field x off w a) off w b = set_field x off w b.
+Proof.
+  intros x off w a b Ho Hw. rewrite (set_field_eq (set_field x off w a)).
+  rewrite get_set_same by assumption. rewrite !set_field_eq. ring.
+Qed.
+
+Lemma set_set_comm : forall x o1 w1 a o2 w2 b,
+  0 <= o1 -> 0 <= w1 -> 0 <= o2 -> 0 <= w2 -> (o1 + w1 <= o2 \/ o2 + w2 <= o1) ->
+  set_field (set_field x o1 w1 a) o2 w2 b = set_field (set_field x o2 w2 b) o1 w1 a.
+Proof.
+  intros x o1 w1 a o2 w2 b H1 H2 H3 H4 D.
+  assert (G2 : get_field (set_field x o1 w1 a) o2 w2 = get_field x o2 w2).
+  { destruct D; [apply get_set_above|apply get_set_below]; lia. }
+  assert (G1 : get_field (set_field x o2 w2 b) o1 w1 = get_field x o1 w1).
+  { destruct D; [apply get_set_below|apply get_set_above]; lia. }
+  rewrite (set_field_eq (set_field x o1 w1 a)), (set_field_eq (set_field x o2 w2 b)), G2, G1.
+  rewrite !set_field_eq. ring.
+Qed.
+
+Lemma set_get_id : forall x off w v, 0 <= w -> get_field x off w = v mod 2 ^ w -> set_field x off w v = x.
+Proof. intros x off w v Hw H. rewrite set_field_eq, H. ring. Qed.
+
+Lemma set_set_comm_b : forall x o1 w1 a o2 w2 b,
+  ((0 <=? o1) && (0 <=? w1) && (0 <=? o2) && (0 <=? w2) && ((o1 + w1 <=? o2) || (o2 + w2 <=? o1))) = true ->
+  set_field (set_field x o1 w1 a) o2 w2 b = set_field (set_field x o2 w2 b) o1 w1 a.
+Proof.
+  intros x o1 w1 a o2 w2 b H.
+  repeat (apply andb_prop in H; let h := fresh "H" in destruct H as [H h]).
+  apply orb_prop in H0. apply set_set_comm; try lia. all: try (destruct H0; [left|right]; lia).
+Qed.
+Lemma set_set_same_b : forall x off w a b, ((0 <=? off) && (0 <=? w)) = true ->
+  set_field (set_field x off w a) off w b = set_field x off w b.
+Proof. intros x off w a b H. apply andb_prop in H. destruct H. apply set_set_same; lia. Qed.
+
+Local Opaque set_field get_field Z.pow.
+
+(* changing the nonce of a claim built by ToCoreClaim is building it with that nonce *)
+Lemma build_renonce : forall O c mz ty sl nonce ver upd sp rp cl n,
+  build O c mz ty sl nonce ver upd sp rp = Ok cl ->
+  build O c mz ty sl n ver upd sp rp = Ok (set_revocation_nonce cl n).
+Proof.
+  intros O c mz ty sl nonce ver upd sp rp cl n H. unfold build in *.
+  unfold new_claim, set_slot_bytes in *.
+  destruct (s_index_a sl <? q); [|discriminate].
+  destruct (s_index_b sl <? q); [|discriminate].
+  destruct (s_value_a sl <? q); [|discriminate].
+  destruct (s_value_b sl <? q); [|discriminate].
+  cbn [bind] in *.
+  unfold place_subject, place_root, set_index_merklized_root, set_value_merklized_root, set_slot_int in *.
+  destruct (c_subject c) as [s|];
+  [ destruct (did_to_id O s) as [id|]; cbn [of_option bind] in *; [|discriminate];
+    destruct (String.eqb sp "" || String.eqb sp pos_index);
+    [|destruct (String.eqb sp pos_value); [|discriminate]]
+  | ];
+  cbn [bind] in *;
+  (destruct (String.eqb rp pos_index);
+   [|destruct (String.eqb rp pos_value); [|destruct (String.eqb rp ""); [|discriminate]]]);
+  try (destruct (in_field (m_root mz)); cbn [bind] in *; [|discriminate]);
+  inversion H as [Hcl]; clear H; f_equal;
+  destruct upd; destruct (c_expiration c) as [e|];
+  cbv beta iota zeta delta
+    [set_revocation_nonce set_version set_schema_hash claim_zero
+     set_index_id set_value_id set_subject set_expiration_date set_flag_expiration
+     set_flag_updatable set_flag_merklized b2z
+     with_i0 with_i1 with_i2 with_i3 with_v0 with_v1 with_v2 with_v3
+     i0 i1 i2 i3 v0 v1 v2 v3];
+  f_equal;
+  repeat first [ reflexivity
+               | rewrite set_set_same_b by reflexivity
+               | rewrite (set_set_comm_b _ 64 64 _ 0 64) by reflexivity ].
+Qed.
+
+
+Lemma mk_claim_eq : forall a b c d e f g h a' b' c' d' e' f' g' h',
+  a = a' -> b = b' -> c = c' -> d = d' -> e = e' -> f = f' -> g = g' -> h = h' ->
+  Build_claim a b c d e f g h = Build_claim a' b' c' d' e' f' g' h'.
+Proof. intros; subst; reflexivity. Qed.
+
+Lemma build_reversion : forall O c mz ty sl nonce ver upd sp rp cl v,
+  build O c mz ty sl nonce ver upd sp rp = Ok cl ->
+  build O c mz ty sl nonce v upd sp rp = Ok (set_version cl v).
+Proof.
+  intros O c mz ty sl nonce ver upd sp rp cl v H. unfold build in *.
+  unfold new_claim, set_slot_bytes in *.
+  destruct (s_index_a sl <? q); [|discriminate].
+  destruct (s_index_b sl <? q); [|discriminate].
+  destruct (s_value_a sl <? q); [|discriminate].
+  destruct (s_value_b sl <? q); [|discriminate].
+  cbn [bind] in *.
+  unfold place_subject, place_root, set_index_merklized_root, set_value_merklized_root, set_slot_int in *.
+  destruct (c_subject c) as [s|];
+  [ destruct (did_to_id O s) as [id|]; cbn [of_option bind] in *; [|discriminate];
+    destruct (String.eqb sp "" || String.eqb sp pos_index);
+    [|destruct (String.eqb sp pos_value); [|discriminate]]
+  | ];
+  cbn [bind] in *;
+  (destruct (String.eqb rp pos_index);
+   [|destruct (String.eqb rp pos_value); [|destruct (String.eqb rp ""); [|discriminate]]]);
+  try (destruct (in_field (m_root mz)); cbn [bind] in *; [|discriminate]);
+  inversion H as [Hcl]; clear H; apply (f_equal (@Ok claim));
+  destruct upd; destruct (c_expiration c) as [e|];
+  cbv beta iota zeta delta
+    [set_revocation_nonce set_version set_schema_hash claim_zero
+     set_index_id set_value_id set_subject set_expiration_date set_flag_expiration
+     set_flag_updatable set_flag_merklized b2z
+     with_i0 with_i1 with_i2 with_i3 with_v0 with_v1 with_v2 with_v3
+     i0 i1 i2 i3 v0 v1 v2 v3];
+  apply mk_claim_eq;
+  unfold off_schema, w_schema, off_subject, w_subject, off_expflag, off_updatable, off_merklized, w_merklized, off_version, w_version, w_id;
+  repeat first [ match goal with |- ?a = ?a => reflexivity end
+               | rewrite set_set_same_b by reflexivity
+               | rewrite (set_set_comm_b _ _ _ _ 160 32) by reflexivity ].
+Qed.
+
+Lemma build_reupdatable : forall O c mz ty sl nonce ver upd sp rp cl b,
+  build O c mz ty sl nonce ver upd sp rp = Ok cl ->
+  build O c mz ty sl nonce ver b sp rp = Ok (set_flag_updatable cl b).
+Proof.
+  intros O c mz ty sl nonce ver upd sp rp cl b H. unfold build in *.
+  unfold new_claim, set_slot_bytes in *.
+  destruct (s_index_a sl <? q); [|discriminate].
+  destruct (s_index_b sl <? q); [|discriminate].
+  destruct (s_value_a sl <? q); [|discriminate].
+  destruct (s_value_b sl <? q); [|discriminate].
+  cbn [bind] in *.
+  unfold place_subject, place_root, set_index_merklized_root, set_value_merklized_root, set_slot_int in *.
+  destruct (c_subject c) as [s|];
+  [ destruct (did_to_id O s) as [id|]; cbn [of_option bind] in *; [|discriminate];
+    destruct (String.eqb sp "" || String.eqb sp pos_index);
+    [|destruct (String.eqb sp pos_value); [|discriminate]]
+  | ];
+  cbn [bind] in *;
+  (destruct (String.eqb rp pos_index);
+   [|destruct (String.eqb rp pos_value); [|destruct (String.eqb rp ""); [|discriminate]]]);
+  try (destruct (in_field (m_root mz)); cbn [bind] in *; [|discriminate]);
+  inversion H as [Hcl]; clear H; apply (f_equal (@Ok claim));
+  destruct upd; destruct b; destruct (c_expiration c) as [e|];
+  cbv beta iota zeta delta
+    [set_revocation_nonce set_version set_schema_hash claim_zero
+     set_index_id set_value_id set_subject set_expiration_date set_flag_expiration
+     set_flag_updatable set_flag_merklized b2z
+     with_i0 with_i1 with_i2 with_i3 with_v0 with_v1 with_v2 with_v3
+     i0 i1 i2 i3 v0 v1 v2 v3];
+  apply mk_claim_eq;
+  unfold off_schema, w_schema, off_subject, w_subject, off_expflag, off_updatable, off_merklized, w_merklized, off_version, w_version, w_id;
+  repeat first [ match goal with |- ?a = ?a => reflexivity end
+               | rewrite (set_get_id _ 132 1 0) by (first [lia | fields; reflexivity])
+               | rewrite set_set_same_b by reflexivity
+               | rewrite (set_set_comm_b _ _ _ _ 132 1) by reflexivity ].
+Qed.
+
+
+Lemma derive_intro : forall O c o mz ty sl nm rp cl,
+  cred_view c = Ok (mz, ty, sl, nm) ->
+  eff_root_pos nm (o_root_pos o) = Ok rp ->
+  build O c mz ty sl (o_nonce o) (o_version o) (o_updatable o) (o_subject_pos o) rp = Ok cl ->
+  derive O c o = Ok cl.
+Proof.
+  intros O c o mz ty sl nm rp cl Hv Hrp Hb. unfold derive. unfold cred_view in Hv.
+  destruct (of_option (c_mz c) "merklize") as [mz0| | |]; cbn [bind] in *; try discriminate.
+  destruct (find_credential_type mz0) as [ty0| | |]; cbn [bind] in *; try discriminate.
+  destruct (parse_slots c mz0 ty0) as [[sl0 nm0]| | |]; cbn [bind fst snd] in *; try discriminate.
+  inversion Hv; subst. rewrite Hrp. cbn [bind]. exact Hb.
+Qed.
+
+Lemma derive_accepts : forall O c o cl, derive O c o = Ok cl -> verify_binding O c cl = Ok tt.
+Proof. intros O c o cl H. apply verify_binding_iff. eapply derive_readback. exact H. Qed.
+
+(* The option fields are free: the nonce, the version and the updatable bit of an accepted
+   claim can be set to anything and the binding check still accepts (the result is the claim of
+   the same credential under those options).  What protects them is the signature / the
+   inclusion proof over the claim, not this check. *)
+Theorem binding_option_fields_free : forall O c cl n v b,
+  verify_binding O c cl = Ok tt ->
+  verify_binding O c (set_revocation_nonce cl n) = Ok tt /\
+  verify_binding O c (set_version cl v) = Ok tt /\
+  verify_binding O c (set_flag_updatable cl b) = Ok tt.
+Proof.
+  intros O c cl n v b H.
+  apply verify_binding_iff in H. destruct H as (o & _ & Hd).
+  apply derive_inv in Hd. destruct Hd as (mz & ty & sl & nm & rp & Hv & Hrp & Hb).
+  split; [|split].
+  - apply (derive_accepts O c {| o_nonce := n; o_version := o_version o; o_subject_pos := o_subject_pos o;
+                                 o_root_pos := o_root_pos o; o_updatable := o_updatable o |}).
+    eapply derive_intro; [exact Hv|exact Hrp|]. cbn [o_nonce o_version o_updatable o_subject_pos].
+    eapply build_renonce. exact Hb.
+  - apply (derive_accepts O c {| o_nonce := o_nonce o; o_version := v; o_subject_pos := o_subject_pos o;
+                                 o_root_pos := o_root_pos o; o_updatable := o_updatable o |}).
+    eapply derive_intro; [exact Hv|exact Hrp|]. cbn [o_nonce o_version o_updatable o_subject_pos].
+    eapply build_reversion. exact Hb.
+  - apply (derive_accepts O c {| o_nonce := o_nonce o; o_version := o_version o; o_subject_pos := o_subject_pos o;
+                                 o_root_pos := o_root_pos o; o_updatable := b |}).
+    eapply derive_intro; [exact Hv|exact Hrp|]. cbn [o_nonce o_version o_updatable o_subject_pos].
+    eapply build_reupdatable. exact Hb.
+Qed.
+
+Example option_fields_free_ex :
+  let cl := Ex.claim_of Ex.c1 (Some Ex.o1) in
+  verify_binding Ex.O Ex.c1 cl = Ok tt /\
+  set_revocation_nonce cl 5 <> cl /\
+  verify_binding Ex.O Ex.c1 (set_revocation_nonce cl 5) = Ok tt.
+Proof. vm_compute. repeat split; try reflexivity. discriminate. Qed.
